@@ -919,6 +919,31 @@ class CallsMixin(ExecBase):
     # strings ------------------------------------------------------------------------------------
     def str_method(self, v: Val, name, args, kwargs, st, node):
         s = v.e
+        A = [self.as_val(a, st, node) for a in args if not isinstance(a, Tup)] if not any(isinstance(a, Tup) for a in args) else None
+        # constant folding: a method of a concrete string with concrete arguments is evaluated by CPython itself
+        ss = z3.simplify(s)
+        if A is not None and z3.is_string_value(ss) and not kwargs and name not in ("join", "format", "encode"):
+            conc = []
+            for a in A:
+                ae = z3.simplify(a.e) if a.e is not None else None
+                if a.tag == "s" and z3.is_string_value(ae):
+                    conc.append(ae.as_string())
+                elif a.tag == "i" and z3.is_int_value(ae):
+                    conc.append(ae.as_long())
+                elif a.tag == "none":
+                    conc.append(None)
+                else:
+                    conc = None
+                    break
+            if conc is not None:
+                try:
+                    r = getattr(ss.as_string(), name)(*conc)
+                    if isinstance(r, (str, bool, int)):
+                        return const_to_val(r)
+                    if isinstance(r, list):
+                        return self.mk_list(st, const_to_val(r))
+                except Exception:  # noqa
+                    pass
         A = [self.as_val(a, st, node) for a in args]
         if name in ("startswith", "endswith"):
             fn = z3.PrefixOf if name == "startswith" else z3.SuffixOf
